@@ -91,8 +91,17 @@ def trace_cfg(build, known):
     return path
 
 
-def validate_trace(trace_path, build, known=None, timeout=1800, xmx="3g"):
-    """Runs the trace specification over one ndjson trace. Returns the RESULT dict."""
+def validate_trace(trace_path, build, known=None, timeout=1800, xmx="2g"):
+    """Runs the trace specification over one ndjson trace. Returns the RESULT dict.
+    One retry: a JVM that was killed or starved under memory pressure says nothing about the trace."""
+    try:
+        return _validate_trace(trace_path, build, known, timeout, xmx)
+    except ToolError:
+        time.sleep(5)
+        return _validate_trace(trace_path, build, known, timeout, xmx)
+
+
+def _validate_trace(trace_path, build, known=None, timeout=1800, xmx="2g"):
     if known is None:
         known = open_deviations()
     cfg = trace_cfg(build, known)
